@@ -5,6 +5,7 @@ import ConfModel.Model.ConnectJson
 import ConfModel.Spec.ContentCoding
 import ConfModel.Spec.ConnectJson
 import ConfModel.Spec.BinMeta
+import ConfModel.Model.Session
 namespace ConfModel.Driver.C13
 open Lean ConfModel.Driver ConfModel.WireChecks ConfModel.WireChecksSpec
 open ConfModel.ServerTimeout (Bytes)
@@ -315,7 +316,7 @@ def zCls (inp : Json) (base : String) : String :=
     if e == ContentCoding.lower e then "lower" else if e == e.map Char.toUpper then "upper" else "mixed"
   s!"{base}/{ContentCoding.codings.getD (nat (field inp "comp")) "?"}/{spelling}"
 
-def handle : Handler := fun op inp impl =>
+def handleOne : Handler := fun op inp impl =>
   if !(isNull (field impl "panic")) then
     { agree := false, holds := false, why := "panic on arbitrary input: " ++ str (field impl "panic") } else
   match op with
@@ -473,6 +474,110 @@ def handle : Handler := fun op inp impl =>
     { agree := got == want && !fb.any (·.startsWith "other:"), holds := got == want, nontrivial := want,
       model := toJson want,
       why := if got == want then "" else s!"HTTP trailers outside gRPC: content-type {ct}, flagged={got}, expected={want}" }
+  | "tonly" =>
+    let ct := str (field inp "ct")
+    let hs := hdrsOf (field inp "headers")
+    let real := hdrsOf (field inp "real")
+    let tr : Hdrs := announcedOnly ((strList (field inp "announced")).map unhex) ++ real
+    let bodyData := bool (field inp "bodyData")
+    let traceErr := bool (field inp "traceErr")
+    let fb := strList (field impl "fb")
+    let st := fb.filter (·.startsWith "st:")
+    let decH := decOf (field impl "oracleH")
+    let decT := decOf (field impl "oracleT")
+    let src := statusSource ct traceErr bodyData tr
+    let m : List StFb := match src with
+      | .headers => checkGRPCStatus decH hs
+      | .trailers => checkGRPCStatus decT real
+      | .none => []
+    let wantT := httpTrailersFeedback ct tr.length
+    let gotT := fb.contains "wire:http-trailers"
+    let others := fb.filter (fun f => !(f.startsWith "st:") && f != "wire:http-trailers")
+    -- the property's side: a gRPC / gRPC-Web response without body message and without a trailer
+    -- that HAS A VALUE carries its status in the headers: silent iff that status is well-formed,
+    -- every malformation of it reported (announced names are not trailers)
+    let isGrpc := "application/grpc".toList.isPrefixOf ct.toList
+    let specTrailersOnly := isGrpc && !traceErr && !bodyData && real.all (fun kv => kv.2.isEmpty)
+    let known := st.filterMap stOf
+    let holds := !specTrailersOnly || (known.length == st.length && statusHolds decH hs known)
+    { agree := m.map StFb.cls == st && gotT == wantT && others.isEmpty && bool (field impl "ok"), holds := holds,
+      nontrivial := specTrailersOnly && !(strList (field inp "announced")).isEmpty,
+      model := toJson (m.map StFb.cls),
+      cls := (if specTrailersOnly then "trailers-only" else "other") ++ (if (strList (field inp "announced")).isEmpty then "" else "/announcing"),
+      why := if holds then (if m.map StFb.cls == st then "" else s!"status feedback {st}, model {m.map StFb.cls} (source {reprStr src})") else
+        s!"Trailers-Only {ct} response (status in the HTTP headers, no body message, no trailer sent) announcing trailer names {(strList (field inp "announced")).map (fun n => (String.fromUTF8? ⟨(unhex n).toArray⟩).getD n)}: the status in the headers is well-formed={statusOK decH hs}, must flag {reprStr (mustFlagStatus decH hs)}, feedback {st}" }
   | _ => bad ("C13: unknown op " ++ op)
+
+/-! ### histories of calls (c13seq.go) -/
+
+/-- one step of a history: is anything demanded of the feedback of this response on its own?
+(the coding is announced as applied, and the coded body is neither truncated nor followed by bytes) -/
+def seqDemanded (st : Json) : Bool :=
+  let inp := field st "in"
+  -- connect-go (the client under the invoker) knows content codings by their exact lower-case
+  -- names only; for any other spelling it fails the RPC and closes the body UNREAD, so that the
+  -- capture is empty: nothing is demanded of such a call on its own here (the one-response op
+  -- zcerr, where the body is read to its end, demands every spelling) - history independence is
+  -- judged all the same
+  let enc := field inp "enc"
+  let readByClient := isNull enc || str enc == ContentCoding.lower (str enc)
+  nat (field st "trunc") == 0 && str (field st "trail") == "" && readByClient &&
+    zDemanded (str (field st "op") != "zcerr") inp
+
+/-- `seq`: per call of the history (a) the judgement of the one-response op on the feedback of
+THAT call, (b) history independence: the feedback is that of the same response as the only call
+(`Session.run fresh` = `map alone`, Props.C13.session_fresh). The property's predicate is silent
+iff well-formed - a function of the response: a response that is silent in one history and draws
+feedback in another violates it on whichever side the response is. -/
+def handleSeq (inp impl : Json) : Verdict :=
+  if !(isNull (field impl "panic")) then
+    { agree := false, holds := false, why := "panic on a history of responses: " ++ str (field impl "panic") } else
+  let steps := arr (field inp "steps")
+  let outs := arr (field impl "steps")
+  if steps.length != outs.length then bad "C13 seq: step count" else
+  let zs := steps.zip outs
+  -- the model of the history: the code keeps nothing between calls; the examiner of call k is
+  -- what the same response yields alone (index k identifies the response, its body is one chunk)
+  let aloneOf (k : Nat) : List String := sortStrings (strList (field (outs.getD k Json.null) "alone"))
+  let body (k : Nat) : List UInt8 := (toString k).toUTF8.toList
+  let examine (k : Nat) (captured : List UInt8) : List String × List UInt8 :=
+    if captured == body k then (aloneOf k, []) else (["<bytes of another call examined>"], [])
+  let expected := Session.run Session.fresh examine () ((List.range steps.length).map fun k => (k, [body k]))
+  let seqs := outs.map fun o => sortStrings (strList (field o "seq"))
+  let indep := seqs == expected
+  -- the same response examined in this history and alone: silent in one, vocal in the other
+  let flips := (List.range steps.length).filter fun k =>
+    (seqs.getD k []).isEmpty != (aloneOf k).isEmpty ||
+      bool (field (outs.getD k Json.null) "ok") != bool (field (outs.getD k Json.null) "aloneOk")
+  let vs : List (Nat × Verdict) := (List.range steps.length).filterMap fun k =>
+    match zs[k]? with
+    | none => none
+    | some (st, o) =>
+      if seqDemanded st then some (k, handleOne (str (field st "op")) (field st "in") (field o "impl")) else none
+  let badHold := vs.find? (fun kv => !kv.2.holds)
+  let badAgree := vs.find? (fun kv => !kv.2.agree)
+  let holds := badHold.isNone && flips.isEmpty
+  let describe (k : Nat) : String :=
+    match zs[k]? with
+    | some (st, _) => s!"call {k + 1} of {steps.length} ({str (field st "op")} {str (field (field st "in") "kind")})"
+    | none => ""
+  { agree := indep && badAgree.isNone, holds := holds,
+    nontrivial := vs.length ≥ 1 && steps.length ≥ 2,
+    model := toJson expected,
+    cls := s!"len{steps.length}/" ++ (if vs.length == steps.length then "all-demanded" else if vs.isEmpty then "none-demanded" else "mixed"),
+    why :=
+      match badHold with
+      | some (k, v) => s!"history of {steps.length} responses through invoker.Invoke in one process: {describe k}: {v.why} [feedback of this call in the history {seqs.getD k []}, of the same response as the only call {aloneOf k}]"
+      | none =>
+        match flips.head? with
+        | some k => s!"history of {steps.length} responses through invoker.Invoke in one process: {describe k}: the same response draws {seqs.getD k []} in this history but {aloneOf k} as the only call (examined: {bool (field (outs.getD k Json.null) "ok")} / {bool (field (outs.getD k Json.null) "aloneOk")}) - silent iff well-formed cannot hold of both"
+        | none =>
+          if !indep then s!"feedback of the calls of the history {seqs} differs from the feedback of the same responses alone {expected}"
+          else match badAgree with
+            | some (k, v) => s!"{describe k}: {v.why}"
+            | none => "" }
+
+def handle : Handler := fun op inp impl =>
+  if op == "seq" then handleSeq inp impl else handleOne op inp impl
 
 end ConfModel.Driver.C13
